@@ -39,25 +39,35 @@ def cases(tier, seed):
                 for (ca_, sa_) in ((0x00, D.SRV), (D.CLI, 0x00)):
                     for intr in ('other_sa', 'same_sa_other_ptr'):
                         out.append(dict(kind=kind, seedkey=sk, nbytes=L, w=255, intr=intr, reps=1, cli=ca_, srv=sa_, seed=seed * 977 + len(out)))
+    # intruders at special source addresses: the null address 254, the last claimable address 253, address 0
+    for kind in ('read', 'write'):
+        for sk in (False, True):
+            for L in (3, 20):
+                for isa in (254, 253, 0x00):
+                    out.append(dict(kind=kind, seedkey=sk, nbytes=L, w=255, intr='other_sa', intr_sa=isa, reps=1, seed=seed * 977 + len(out)))
     return out
 
 
 class Intruder(ScriptNode):
-    def __init__(self, bus, sim):
+    def __init__(self, bus, sim, addr=D.INTR):
         super().__init__(bus, 'I')
         self.sim = sim
+        self.addr = addr
         self.answers = []
+        self.stray = []
 
     def on_frame(self, fr):
         f = C.split_id(fr.can_id)
-        if fr.ext and f['ps'] == D.INTR:
+        if fr.ext and f['ps'] == self.addr:
             self.answers.append(fr)
+        elif fr.ext and fr.src == 'S' and f['pf'] in (C.PF_DM15, C.PF_DM16) and f['ps'] == 255:
+            self.stray.append(fr)          # memory-access answers are destination specific: never to the global address
 
 
 def one_run(case, k, seed):
     DW = D.Dm14World(seed, seedkey=case['seedkey'], windows=(case['w'], case['w']), latency=(0.0002, 0.003), respond_delay=0.004,
                      cli_addr=case.get('cli', D.CLI), srv_addr=case.get('srv', D.SRV))
-    I = Intruder(DW.W.bus, DW.sim)
+    I = Intruder(DW.W.bus, DW.sim, case.get('intr_sa', D.INTR))
     rng = random.Random(seed)
     L = case['nbytes']
     ptr = 0x92000003
@@ -73,7 +83,7 @@ def one_run(case, k, seed):
                 return
             if len(DW.W.bus.frames) - n_before == k and not armed:
                 armed.append(1)
-                sa = D.INTR if case['intr'] == 'other_sa' else DW.cli_addr
+                sa = I.addr if case['intr'] == 'other_sa' else DW.cli_addr
                 p2 = 0x92000003 if case['intr'] == 'other_sa' else 0x91000007
                 def shoot():
                     # inside the transaction window only: once the client's closing DM14 is on the bus, a later DM14 arrives after it
@@ -123,13 +133,15 @@ def run_case(case):
         M.m_live(viol, DW.W, 'dm14')
         # 1. the application never sees the intruder, and is not asked more often than un-intruded
         for p in DW.proceed_calls:
-            if p['sa'] == D.INTR or p['address'] == 0x91000007 or p['command'] not in (C.DM14_READ, C.DM14_WRITE):
+            if p['sa'] == I.addr or p['address'] == 0x91000007 or p['command'] not in (C.DM14_READ, C.DM14_WRITE):
                 viol.add('intruder_served', '%s: proceed was called for the intruder / a non-request (sa %02X, address %#x, command %d)' % (what, p['sa'], p['address'], p['command']), how='proceed', **tag)
         if len(DW.proceed_calls) > base_proceeds or len(DW.notify_calls) > base_notifies:
             viol.add('intruder_served', '%s: proceed ran %d (un-intruded %d), notify %d (%d) times'
                      % (what, len(DW.proceed_calls), base_proceeds, len(DW.notify_calls), base_notifies), how='extra_call', **tag)
         # 2. answers to the intruder: busy / operation failed only
-        intr_addr = D.INTR if case['intr'] == 'other_sa' else DW.cli_addr
+        intr_addr = I.addr if case['intr'] == 'other_sa' else DW.cli_addr
+        for f in I.stray:
+            viol.add('intruder_answer', '%s: the server sent a memory-access answer to the global address: %s' % (what, f.brief()), how='misaddressed', **tag)
         t_inj = injected[0] if injected else 0
         if case['intr'] == 'other_sa':
             ans = I.answers
